@@ -180,6 +180,46 @@ theorem c19_psf_pd (sigma evtRa evtDec srcRa srcDec : ℝ) (hs : sigma ≠ 0) :
 
 example : (0.01 : ℝ) ≠ 0 := by norm_num
 
+/-- **the Gaussian PSF values of a trial**: one per (source, event) pair, in the order of the pairs
+— whatever that order is —, each the density of *its own* pair (`gaussPsfPd`, hence by
+`c19_psf_pd` a function of the angle between that event and that source); invalid index = error -/
+theorem c19_psf_field (srcs evts : List (ℝ × ℝ)) (sigmas : List ℝ) (pairs : List (ℕ × ℕ)) :
+    (psfField srcs evts sigmas pairs).length = pairs.length ∧
+    ∀ (i : ℕ) (hi : i < pairs.length) (hk : (pairs[i]).1 < srcs.length) (he : (pairs[i]).2 < evts.length)
+      (hs : (pairs[i]).2 < sigmas.length),
+      (psfField srcs evts sigmas pairs)[i]? = some (some (
+        gaussPsfPd sigmas[(pairs[i]).2] (evts[(pairs[i]).2]).1 (evts[(pairs[i]).2]).2
+          (srcs[(pairs[i]).1]).1 (srcs[(pairs[i]).1]).2)) := by
+  refine ⟨by simp [psfField], fun i hi hk he hs => ?_⟩
+  simp only [psfField, List.getElem?_map, List.getElem?_eq_getElem hi, Option.map_some,
+    List.getElem?_eq_getElem hk, List.getElem?_eq_getElem he, List.getElem?_eq_getElem hs]
+
+/-- gathering the source coordinates with the trial data manager's *block layout* helper
+(`broadcast_sources_array_to_values_array`, which only counts the pairs per source) instead of
+`np.take(…, src_idxs)` is the same thing **iff-direction proved here:** when the source indices of
+the pairs are in ascending order (what the built-in event selections produce) … -/
+theorem c19_block_broadcast_eq_take_of_sorted {α : Type} (xs : List α) (srcIdxs : List ℕ)
+    (hs : srcIdxs.Pairwise (· ≤ ·)) (hr : ∀ i ∈ srcIdxs, i < xs.length) :
+    (blockBroadcast xs srcIdxs).map some = takeSrc xs srcIdxs :=
+  blockBroadcast_eq_take_of_sorted xs srcIdxs hs hr
+
+example : ([0, 0, 1, 1] : List ℕ).Pairwise (· ≤ ·) ∧ ∀ i ∈ ([0, 0, 1, 1] : List ℕ), i < [10, 20].length := by
+  decide
+
+/-- … the claim for an arbitrary order of the pairs -/
+def c19_block_broadcast_statement : Prop :=
+  ∀ (xs : List ℕ) (srcIdxs : List ℕ), (∀ i ∈ srcIdxs, i < xs.length) →
+    (blockBroadcast xs srcIdxs).map some = takeSrc xs srcIdxs
+
+/-- … and it is false for pairs listed event by event (`src_idxs = [0, 1, 0, 1]`): the block layout
+gives `[a, a, b, b]`, the pairs need `[a, b, a, b]`.  This is why the PSF model takes the pairs, and
+why the check drives selections that list their pairs in every order. -/
+theorem c19_block_broadcast_counterexample : ¬ c19_block_broadcast_statement := by
+  intro h
+  have := h [10, 20] [0, 1, 0, 1] (by decide)
+  revert this
+  decide
+
 /-! ## azimuth ↔ right ascension -/
 
 /-- composing the transform with itself reduces the azimuth modulo 2π (any time, any constants) -/
